@@ -26,6 +26,20 @@ Theorem C19_line_classes : forall ndep nattr li,
 Proof. exact classify_tail. Qed.
 Print Assumptions C19_line_classes.
 
+(* TIE T: the model's line classification IS the source's if/elif chain over the line-number expressions
+   (PI_LINE .. MISSING_LINE, LAST_VAR_DESC_LINE, SPECIAL_COMMENT_COUNT_LINE, LAST_SPECIAL_COMMENT_LINE,
+   USER_COMMENT_COUNT_LINE) regenerated from icarttfiles/ffi1001.py on every run (coq/Gen/IcarttSrc.v); the
+   writer's declared count is the source's expression len(myattrs) + len(depvarkeys) + 15. *)
+Theorem C19_classify_is_source : forall n nm nsc li, classify n nm nsc li = classify_src n nm nsc li.
+Proof. exact classify_is_source. Qed.
+Print Assumptions C19_classify_is_source.
+
+Theorem C19_header_count_is_source : forall f ind,
+  header_count f ind = PNC.Gen.IcarttSrc.header_count_expr (Z.of_nat (length (myattrs f))) (Z.of_nat (length (depvars ind f)))
+  /\ PNC.Gen.IcarttSrc.format_number = 1001.
+Proof. exact header_count_is_source. Qed.
+Print Assumptions C19_header_count_is_source.
+
 (* Declared = actual, for ANY attribute values (the repaired writer prints them on one line): if no
    other printed field (fixed lines, names, units, codes, attribute keys) contains a newline, the output
    is exactly N - 1 header lines, the last being the names line, followed by the data rows;
@@ -208,21 +222,60 @@ Print Assumptions C19_header_state_machine.
    wrote runs the header loop to exactly the first data row and hands the data stage (read_data) the
    variable names in order, every missing-code token and value, the units of every dependent variable
    and of line 9, one scale per dependent variable - any number of variables, attributes, records. *)
-Theorem C19_read_write_meta_partial : forall f n ls ind sd,
+Theorem C19_read_write_meta_partial : forall f n ls ind sd iv,
   impl_write f = Some (n, ls) ->
-  indep_name f = Some ind -> get_attr (s2z "SDATE") (f_attrs f) = Some sd ->
+  indep_name f = Some ind -> get_attr (s2z "SDATE") (f_attrs f) = Some sd -> find_var ind f = Some iv ->
   forallb no_nl (hdr_other f ind sd) = true ->
   header_ok f ind = true ->
-  exists s rows,
-    impl_roundtrip f = read_data n s (map PR rows)
+  exists s,
+    impl_roundtrip f = read_data n s (map PR (wrows f ind iv))
     /\ s_vars s = Some (ind :: map v_name (depvars ind f))
-    /\ map fst (s_miss s) = map code_str (depvars ind f)
-    /\ map snd (s_miss s) = map code_of (map code_str (depvars ind f))
+    /\ s_miss s = map (fun t => (t, code_of t)) (map code_str (depvars ind f))
     /\ s_units s = line9_unit (indep_line f ind) :: map units_str (depvars ind f)
-    /\ length (s_scales s) = length (depvars ind f)
+    /\ s_scales s = map (fun _ => D 1 0) (depvars ind f)
     /\ s_nsc s = 0.
 Proof. exact roundtrip_through_header. Qed.
 Print Assumptions C19_read_write_meta_partial.
+
+(* THE DATA STAGE (genfromtxt / reshape / per-variable masking / variables dictionary / time test) for ANY
+   number of rows and columns: rows as wide as the names line, distinct names, enough scales / codes /
+   units, a first column that is a valid time => one variable per name, in order, with the i-th unit, the
+   i-th code (the first code twice: the independent variable gets the first dependent code) and the i-th
+   column masked against that code. *)
+Theorem C19_data_stage : forall n s nm0 nms (rows : list (list dec)) r0 rt,
+  s_vars s = Some (nm0 :: nms) -> uniq (nm0 :: nms) = true ->
+  rows = r0 :: rt -> Forall (fun r => length r = length (nm0 :: nms)) rows ->
+  (length (nm0 :: nms) <= S (length (s_scales s)))%nat ->
+  (length (nm0 :: nms) <= length (firstn 1 (s_miss s) ++ s_miss s))%nat ->
+  (length (nm0 :: nms) <= length (s_units s))%nat ->
+  forallb t_ok (map CV (column 0 rows)) = true ->
+  read_data n s (map PR rows)
+  = Some (RFile n (s_attrs s)
+            (exp_vars (nm0 :: nms) 0 (D 1 0 :: s_scales s) (firstn 1 (s_miss s) ++ s_miss s) (s_units s) (map (map CV) rows))).
+Proof. exact read_data_rows. Qed.
+Print Assumptions C19_data_stage.
+
+(* the i-th column of the written table is the i-th variable's (code-filled) cell list, any shape *)
+Theorem C19_written_columns : forall n cols i,
+  Forall (fun c => length c = n) cols -> (i < length cols)%nat ->
+  column i (transpose_rows n cols) = nth i cols [].
+Proof. exact column_transpose. Qed.
+Print Assumptions C19_written_columns.
+
+(* WHOLE FILES, header AND data: for every file satisfying the boolean side conditions header_ok and
+   data_ok (>= 1 record, equal lengths, distinct names, time-like independent values) the reader applied
+   to the writer's output succeeds and returns exactly expected_vars f - names and order, units, codes,
+   and every cell '%.6e'-rendered and masked against its code - for any number of variables, attributes
+   and records.  (_partial: the side conditions; and expected_vars still carries the independent-code
+   substitution, see C19_indep_code_refuted.) *)
+Theorem C19_roundtrip_whole_partial : forall f n ls ind sd iv,
+  impl_write f = Some (n, ls) ->
+  indep_name f = Some ind -> get_attr (s2z "SDATE") (f_attrs f) = Some sd -> find_var ind f = Some iv ->
+  forallb no_nl (hdr_other f ind sd) = true ->
+  header_ok f ind = true -> data_ok f ind iv = true ->
+  exists A, impl_roundtrip f = Some (RFile n A (expected_vars f ind iv)).
+Proof. exact roundtrip_whole. Qed.
+Print Assumptions C19_roundtrip_whole_partial.
 
 (* line 9 "name, units" gives the independent variable's units back *)
 Theorem C19_line9_units : forall ind u,
@@ -232,16 +285,16 @@ Theorem C19_line9_units : forall ind u,
 Proof. exact line9_print. Qed.
 Print Assumptions C19_line9_units.
 
-(* STILL UNPROVED (DESIGN 8.1 rung 3): the DATA stage for whole files, i.e.
-     forall f, dom f = true -> rt_ok f = true /\ second_ok f = true /\ detect_ok f = true
-   needs, on top of C19_read_write_meta_partial, read_data on the writer's rows (transpose / reshape /
-   column extraction, dictionary de-duplication, the time-range test after rounding) and the closure of
-   dom under to_file for the second cycle.  Those clauses are proved per cell (C19_cell_roundtrip_partial,
-   C19_second_cycle_cell_partial, C19_values_seven_digits), evaluated by vm_compute on the files below and
-   compared with the library on every generated case. *)
+(* STILL UNPROVED (DESIGN 8.1 rung 3): (i) expected_vars f = spec_roundtrip f on dom (index bookkeeping
+   between exp_vars and the per-variable map; the per-cell content is C19_cell_roundtrip_partial and
+   C19_written_columns) and (ii) the closure of the side conditions under to_file, needed to state the
+   second cycle for whole files.  Both are evaluated by vm_compute on the files below and compared with
+   the library on every generated case. *)
 Example C19_header_hypotheses_inhabited :
   header_ok w_good (s2z "t") = true /\ forallb no_nl (hdr_other w_good (s2z "t") (s2z "2020, 01, 02")) = true
-  /\ line9_unit (indep_line w_good (s2z "t")) = s2z "t".
+  /\ line9_unit (indep_line w_good (s2z "t")) = s2z "t"
+  /\ data_ok w_good (s2z "t") (tvar "t" "-9999" 16) = true
+  /\ option_map r_vars (impl_roundtrip w_good) = Some (expected_vars w_good (s2z "t") (tvar "t" "-9999" 16)).
 Proof. vm_compute. repeat split; reflexivity. Qed.
 
 Example C19_domain_inhabited :
